@@ -121,6 +121,20 @@ def gen_case(rng, tier):
                           max_data=(60 if tier == 'quick' else rng.choice([60, 200, 2000])))
     body, _ = gm.build(st)
     case = {'st': st, 'level': level, 'plen': None}
+    if level == 'a' and rng.random() < 0.04:
+        # a large part in front of small ones, and large reads whose edges fall in and around the later header
+        # blocks (limits and offsets that only matter far into a body)
+        big = rng.choice([8200, 9000, 20000, 70000])
+        part0 = dict(st['parts'][0]) if st['parts'] else {'headers': gm.field_headers({'name': 'f', 'filename': 'x', 'ctype': 'a/b'}).hex(), 'data': ''}
+        part0['data'] = (b'd' * big).hex()
+        small = [{'headers': gm.field_headers({'name': 'n%d' % j, 'value': ''}).hex(), 'data': (b'v' * j).hex()} for j in (1, 2)]
+        st = dict(st, parts=[part0] + small)
+        body, layout = gm.build(st)
+        case['st'] = st
+        hs = layout[1][0] if len(layout) > 1 else len(body) // 2
+        pos = sorted({max(1, min(len(body) - 1, hs + d)) for d in rng.sample(range(-12, 60), 3)})
+        case['cuts'] = pos[:rng.choice([1, 2, 3])]
+        return case
     if False and level == 'b':   # withdrawn, see DESIGN.md 11.4 (malformed bodies are outside C06's quantifier)
         # malformed body: compared at the user level only (status / forms / files), where a body that is refused
         # under one division must be refused under every division
